@@ -5,6 +5,8 @@
    are about; a change to the source changes this file and that proof is re-checked. -/
 import UmapModel.Scalar
 
+set_option linter.unusedVariables false
+
 namespace Umap
 namespace Src
 
